@@ -14,6 +14,7 @@ import (
 	"encoding/hex"
 	"flag"
 	"fmt"
+	"math"
 	"os"
 	"os/exec"
 	"sort"
@@ -59,6 +60,36 @@ func malformedCall(srv pb.DrummerServer, kind string) string {
 		// Change.Type is an open enum on the wire: any value but CREATE is malformed
 		t := map[string]int32{"badtype1": 1, "badtype3": 3, "badtypeneg": -1}[kind]
 		return codeStr(srv.SubmitChange(ctx(), &pb.Change{Type: pb.Change_Type(t), ShardId: 7, Members: []uint64{1, 2, 3}, AppName: "app"}))
+	case "edge-shard0", "edge-shardmax", "edge-member0", "edge-dupmembers", "edge-manymembers":
+		// well-formed by the letter (members and an application name), with values at the edges of their types: whatever
+		// the answer, the replica survives
+		c := &pb.Change{Type: pb.Change_CREATE, ShardId: 7, Members: []uint64{1, 2, 3}, AppName: "app"}
+		switch kind {
+		case "edge-shard0":
+			c.ShardId = 0
+		case "edge-shardmax":
+			c.ShardId = math.MaxUint64
+		case "edge-member0":
+			c.Members = []uint64{0, 1, 2}
+		case "edge-dupmembers":
+			c.Members = []uint64{5, 5, 6}
+		case "edge-manymembers":
+			c.Members = nil
+			for i := 1; i <= 2000; i++ {
+				c.Members = append(c.Members, uint64(i))
+			}
+		}
+		first := codeStr(srv.SubmitChange(ctx(), c))
+		return "edge:" + first + ":" + codeStr(srv.SubmitChange(ctx(), c))
+	case "edge-regions-zero", "edge-regions-huge", "edge-regions-dup":
+		rg := &pb.Regions{Region: []string{"r"}, Count: []uint64{0}}
+		switch kind {
+		case "edge-regions-huge":
+			rg.Count = []uint64{1 << 63}
+		case "edge-regions-dup":
+			rg = &pb.Regions{Region: []string{"r", "r"}, Count: []uint64{1, 2}}
+		}
+		return "edge:" + codeStr(srv.SetRegions(ctx(), rg))
 	case "donectx":
 		// the four updating calls under a context that is already cancelled, and one that has expired: an error each
 		// time (a panic here would kill the child), and nothing changes
@@ -135,7 +166,8 @@ func main() {
 	defer run.Close()
 	// 1. malformed configuration calls, each in a child process
 	safe := map[string]bool{}
-	for _, kind := range []string{"nomembers", "emptyapp", "emptyregions", "mismatchedregions", "morecounts", "countsonly", "badtype1", "badtype3", "badtypeneg", "donectx"} {
+	for _, kind := range []string{"nomembers", "emptyapp", "emptyregions", "mismatchedregions", "morecounts", "countsonly", "badtype1", "badtype3", "badtypeneg", "donectx",
+		"edge-shard0", "edge-shardmax", "edge-member0", "edge-dupmembers", "edge-manymembers", "edge-regions-zero", "edge-regions-huge", "edge-regions-dup"} {
 		cmd := exec.Command(os.Args[0], "-probe", kind)
 		outb, err := cmd.CombinedOutput()
 		res := ""
@@ -150,6 +182,13 @@ func main() {
 		case err != nil || res == "":
 			run.Violate(hx.Violation{Property: "C17", Clause: "config_never_failstops", Signature: "config-call-crashes-replica:" + kind,
 				What: fmt.Sprintf("a %s configuration call made the replicated DB fail-stop (child process died: %v)", kind, err), Ops: []interface{}{op}})
+		case strings.HasPrefix(res, "edge:"):
+			// answered one way or the other and the replica is alive (the child checks that it still answers queries)
+			run.Count("c17:edge_value_call_survived")
+			if !strings.HasSuffix(res, " true") {
+				run.Violate(hx.Violation{Property: "C17", Clause: "config_never_failstops", Signature: "config-call-crashes-replica:" + kind,
+					What: fmt.Sprintf("after a %s configuration call the replica no longer answers queries (%s)", kind, res), Ops: []interface{}{op}})
+			}
 		case !strings.HasPrefix(res, "refused"):
 			run.Violate(hx.Violation{Property: "C17", Clause: "malformed_refused", Signature: "malformed-accepted:" + kind,
 				What: fmt.Sprintf("a %s configuration call was answered %s instead of being refused", kind, res), Ops: []interface{}{op}})
@@ -315,6 +354,23 @@ func main() {
 				}
 				if len(got) > 0 {
 					run.Count("c17:nonempty_reply")
+				}
+				// an acknowledged report is on record as received now: the NodeHost collection shows the reporter with the DB's
+				// current logical time, whatever time field the report itself carried
+				if nc, err := srv.GetNodeHostCollection(ctx(), &pb.Empty{}); err == nil {
+					found := false
+					for _, v := range nc.Collection {
+						if v.RaftAddress == op.Addr {
+							found = true
+							run.Count("c17:report_time_checked")
+							if v.LastTick != nc.Tick {
+								fail("query_reflects_state", "reported-host-not-stamped-now", fmt.Sprintf("%s just reported at logical time %d, the NodeHost collection shows it with last report time %d (the report carried %d)", op.Addr, nc.Tick, v.LastTick, u.NodehostInfo.LastTick))
+							}
+						}
+					}
+					if !found {
+						fail("query_reflects_state", "reported-host-missing", fmt.Sprintf("%s just reported and is not in the NodeHost collection", op.Addr))
+					}
 				}
 				// who leads a shard is what its members last said: a replica the view knows, reporting for a membership
 				// version at least the view's, is shown as the leader exactly when it says so - whether or not the shard
